@@ -173,7 +173,7 @@ class _Engine:
 
 
 def _proxy_memo(ctx):
-    from sa.fold import AObj, FuncVal, _Abort, _Raise, _call_function
+    from sa.fold import AObj, DelegatingAObj, FuncVal, _Abort, _Raise, _call_function
     fam = _forward_family(ctx)
     mm = ctx.repo.mod(META)
     ctx.rule('C07.R2', 'a name becomes usable once it is defined, without re-decoration: the resolution property of the '
@@ -192,7 +192,9 @@ def _proxy_memo(ctx):
         ctx.require(len(tables) == 1, f'anchor vanished: the referent-hint memo table of the proxy metaclass ({tables})')
         table = env[tables[0]]
 
-        class _Proxy(AObj):
+        class _Proxy(DelegatingAObj):
+            _real_class = cls
+
             def __init__(self):
                 d = self.__dict__
                 d['__hint_pep749_ref_beartype__'] = None
@@ -254,7 +256,7 @@ def _proxy_memo(ctx):
 
 # ----------------------------------------------------------------------------------------------------------------- R3
 def _proxy_resolver(ctx):
-    from sa.fold import AObj, FuncVal, _Abort, _Raise, _call_function
+    from sa.fold import AObj, DelegatingAObj, FuncVal, _Abort, _Raise, _call_function
     fam = _forward_family(ctx)
     mm = ctx.repo.mod(META)
     ctx.rule('C07.R3', 'what a forward-reference proxy resolves its name to, decided by interpreting the proxy\'s resolver over '
@@ -271,7 +273,9 @@ def _proxy_resolver(ctx):
         meta = F.const(META, 'BeartypeForwardRefMeta')
         state = {}
 
-        class _Proxy(AObj):
+        class _Proxy(DelegatingAObj):
+            _real_class = meta
+
             def __init__(self, weak):
                 d = self.__dict__
                 d['__scope_name_beartype__'] = 'mod'
@@ -343,7 +347,7 @@ def _proxy_resolver(ctx):
 
 # ----------------------------------------------------------------------------------------------------------------- R4
 def _scope_precedence(ctx):
-    from sa.fold import AObj, FuncVal, _Abort, _Raise, _call_function
+    from sa.fold import AObj, DelegatingAObj, FuncVal, _Abort, _Raise, _call_function
     mm = ctx.repo.mod(SCOPEMAKE)
     ctx.rule('C07.R4', 'the scope a string annotation is evaluated in, decided by interpreting make_scope_forward_decor_curr over '
              '{module-level function, function nested in a running function, method of a class (at module level / nested in a '
@@ -468,7 +472,7 @@ def _scope_precedence(ctx):
 
 # ----------------------------------------------------------------------------------------------------------------- R5
 def _missing(ctx):
-    from sa.fold import AObj, FuncVal, _Abort, _Raise, _call_function
+    from sa.fold import AObj, DelegatingAObj, FuncVal, _Abort, _Raise, _call_function
     mm = ctx.repo.mod(SCOPECLS)
     ctx.rule('C07.R5', 'a name that is not defined yet does not fail the decoration: BeartypeForwardScope.__missing__, interpreted '
              'as eval() calls it for an unknown identifier, returns a forward-reference proxy made for that very name, the '
@@ -627,7 +631,7 @@ def _routes(ctx):
 
 # ----------------------------------------------------------------------------------------------------------------- R7
 def _proxy_verdict(ctx):
-    from sa.fold import AObj, FuncVal, _Abort, _Raise, _call_function
+    from sa.fold import AObj, DelegatingAObj, FuncVal, _Abort, _Raise, _call_function
     fam = _forward_family(ctx)
     mm = ctx.repo.mod(META)
     ctx.rule('C07.R7', 'a check against a name defined later gives the verdict of the referent: the proxy\'s __instancecheck__, '
@@ -645,7 +649,9 @@ def _proxy_verdict(ctx):
         state = {}
         log = []
 
-        class _Proxy(AObj):
+        class _Proxy(DelegatingAObj):
+            _real_class = cls
+
             def __init__(self, referent, rtype=None):
                 d = self.__dict__
                 d['__resolved_hint_beartype__'] = referent
